@@ -35,8 +35,13 @@ def main():
     patch = os.path.join(d, "patch.diff")
     demo = os.path.join(d, "demo.rs")
     claimed = [c["property_id"] for c in json.load(open(os.path.join(VERIF, "MANIFEST.json")))["checks"]]
+    restricted = False
     if "--props" in sys.argv:
         claimed = sys.argv[sys.argv.index("--props") + 1].split(",")
+        restricted = True
+    elif os.environ.get("SEED_PROPS"):
+        claimed = os.environ["SEED_PROPS"].split(",")
+        restricted = True
     import shutil
     backup = tempfile.mkdtemp(prefix="seed-backup-")
     shutil.copytree(os.path.join(REPO, "src"), os.path.join(backup, "src"))
@@ -87,7 +92,8 @@ def main():
     if rc != 0:
         print("patch does not apply to the repository:", out)
         return 2
-    results = {}
+    # a restricted run refreshes only the named columns of an earlier full evaluation
+    results = dict(meta.get("checks_on_patched_repo", {})) if restricted else {}
     try:
         for pid in claimed:
             rc, out = sh(f"./check {pid} --quick", cwd=VERIF)
@@ -103,7 +109,10 @@ def main():
     meta["undecided_in"] = sorted(p for p, r in results.items() if r["exit"] == 2)
     rc, head = sh("git -C /repo log --format=%h -1")
     rc, vh = sh("git log --format=%h -1", cwd=VERIF)
-    meta["evaluated_at"] = {"repo": head.strip(), "verif": vh.strip()}
+    if restricted and meta.get("evaluated_at"):
+        meta["evaluated_at"]["refreshed"] = {"verif": vh.strip(), "properties": claimed}
+    else:
+        meta["evaluated_at"] = {"repo": head.strip(), "verif": vh.strip()}
     json.dump(meta, open(meta_path, "w"), indent=1)
     return 0
 
